@@ -177,40 +177,56 @@ func runC03b(c c03bCase, o *vfutil.Obs) *vfutil.Failure {
 	}
 	go func() { awg.Wait(); close(doneWrite) }()
 
-	// HW advancer
-	wg.Add(1)
-	go func() {
-		defer wg.Done()
-		k := 7
-		last := int64(-1)
+	// HW advancers: two of them, as on a leader (the commit loop and the
+	// fast path of the message loop both move the HW). returnedMax is the
+	// largest value whose SetHighWatermark call has returned: from then on the
+	// HW can never be observed below it.
+	var returnedMax int64 = -1
+	noteReturned := func(v int64) {
 		for {
-			select {
-			case <-doneWrite:
-				recMu.Lock()
-				end := contig
-				recMu.Unlock()
-				l.SetHighWatermark(end)
+			cur := atomic.LoadInt64(&returnedMax)
+			if v <= cur || atomic.CompareAndSwapInt64(&returnedMax, cur, v) {
 				return
-			default:
 			}
-			recMu.Lock()
-			target := contig - int64(c.Lag)
-			recMu.Unlock()
-			if c.Step > 0 && target > last+int64(c.Step) {
-				target = last + int64(c.Step)
-			}
-			if target > last {
-				before := l.HighWatermark()
-				l.SetHighWatermark(target)
-				if after := l.HighWatermark(); after < before {
-					fail.set(vfutil.Failf("C03/hw-decreased", "HW went from %d to %d", before, after))
-				}
-				last = target
-			}
-			jitter(&k)
-			runtime.Gosched()
 		}
-	}()
+	}
+	for mover := 0; mover < 2; mover++ {
+		wg.Add(1)
+		go func(mover int) {
+			defer wg.Done()
+			k := 7 + 3*mover
+			last := int64(-1)
+			for {
+				select {
+				case <-doneWrite:
+					recMu.Lock()
+					end := contig
+					recMu.Unlock()
+					l.SetHighWatermark(end)
+					noteReturned(end)
+					return
+				default:
+				}
+				recMu.Lock()
+				target := contig - int64(c.Lag) - int64(mover) // the second mover trails by one: overlapping, unequal advances
+				recMu.Unlock()
+				if c.Step > 0 && target > last+int64(c.Step) {
+					target = last + int64(c.Step)
+				}
+				if target > last {
+					l.SetHighWatermark(target)
+					noteReturned(target)
+					last = target
+				}
+				must := atomic.LoadInt64(&returnedMax)
+				if hw := l.HighWatermark(); hw < must {
+					fail.set(vfutil.Failf("C03/hw-decreased", "the HW is %d after SetHighWatermark(%d) had returned", hw, must))
+				}
+				jitter(&k)
+				runtime.Gosched()
+			}
+		}(mover)
+	}
 
 	// read-only toggler
 	var roGen int64 // bumped before and after every read-only switch: even and unchanged = no switch happened in between
